@@ -337,7 +337,9 @@ func (m *FieldMap) getOrCreate(tag Tag) field {
 	defer m.rwLock.Unlock()
 
 	if f, ok := m.tagLookup[tag]; ok {
+		// A repeating group held under this tag is replaced as a whole, members included.
 		f = f[:1]
+		m.tagLookup[tag] = f
 		return f
 	}
 
